@@ -577,6 +577,51 @@ impl Explorer {
             self.check_cmp(pool, &mut out);
         }
 
+        // a C01/C02/C03-monitor finding on a step that a more specific property speaks about is a
+        // violation of that property as well (its statement includes the value / isolation / heap clause)
+        if !out.is_empty() {
+            let mut inherit: Vec<usize> = Vec::new();
+            if matches!(model_out, Out::Panic(_)) && !is_cb_panic {
+                inherit.push(7);
+            }
+            if is_cb_panic {
+                inherit.push(18);
+            }
+            if value_unchanged_expected || failed > 0 {
+                inherit.push(if failed > 0 { 5 } else { 6 });
+            }
+            if refused > 0 || size_exceeds_max(op, model_before.as_deref()) {
+                inherit.push(6);
+            }
+            if snaps[t].present && snaps[t].kind == Kind::Static {
+                inherit.push(10);
+            }
+            if op.is_clone_like() {
+                inherit.push(8);
+            }
+            if matches!(op, Op::ShrinkTo { .. } | Op::ShrinkFit { .. }) {
+                inherit.push(13);
+            }
+            let cap_promise = matches!(
+                op,
+                Op::Push { .. } | Op::PushStr { .. } | Op::Insert { .. } | Op::InsertStr { .. } | Op::AddAssign { .. } | Op::Write { .. } | Op::Reserve { .. } | Op::WithCap { .. } | Op::Extend { .. }
+            );
+            inherit.sort_unstable();
+            inherit.dedup();
+            let mut extra: Vec<Viol> = Vec::new();
+            for v in out.iter() {
+                if matches!(v.prop, 1 | 2 | 3) {
+                    for &p in &inherit {
+                        extra.push(Viol { prop: p, monitor: v.monitor, msg: format!("(C{:02} monitor on a step C{:02} speaks about) {}", v.prop, p, v.msg) });
+                    }
+                    if cap_promise && v.monitor == "shadow-heap" {
+                        extra.push(Viol { prop: 11, monitor: v.monitor, msg: format!("(reserved room is not really there) {}", v.msg) });
+                    }
+                }
+            }
+            out.extend(extra);
+        }
+
         // coverage
         let kind_after = pool.slots[t].as_ref().map(kind_of);
         let sig = mix(
@@ -640,7 +685,7 @@ impl Explorer {
     }
 
     /// Invariants of every live handle + reference counts + heap accounting.
-    fn check_state(&mut self, pool: &Pool, _snaps: &[Snap; NSLOTS], _t: usize, had_requests: bool, out: &mut Vec<Viol>) {
+    fn check_state(&mut self, pool: &Pool, snaps: &[Snap; NSLOTS], t: usize, had_requests: bool, out: &mut Vec<Viol>) {
         let mut groups: Vec<(usize, usize, usize)> = Vec::new(); // (ptr, handles, cap)
         for i in 0..NSLOTS {
             let (slot, model) = (&pool.slots[i], &pool.model[i]);
@@ -663,6 +708,14 @@ impl Explorer {
                         Self::viol(out, 20, "niche", format!("slot {i}: last byte {:#x} lies in the niche range", lb));
                     }
                     let bytes = s.as_bytes();
+                    if bytes != m.as_bytes() && i != t && snaps[i].present {
+                        Self::viol(
+                            out,
+                            2,
+                            "bystander",
+                            format!("slot {i} (not the target of the step) no longer reads its own text: {:?}", String::from_utf8_lossy(&bytes[..bytes.len().min(60)])),
+                        );
+                    }
                     if bytes != m.as_bytes() {
                         let valid = std::str::from_utf8(bytes).is_ok();
                         Self::viol(
